@@ -63,6 +63,8 @@ class Runner:
     def sync_case(self, case):
         """case = dict(cache, faults=[(kind 'rd'|'wr', disk_or_level, j, errno)], limit or None)"""
         scn, ref, chk = self.scn, self.ref, self.chk
+        if len(chk.violations) > 8:
+            return
         a = scn.build()
         rep = dict(case); rep.update(scn.describe())
         try:
@@ -117,6 +119,20 @@ class Runner:
             # ---- the property
             bailed = 'exit' not in r.summary() or r.summary().get('exit') not in ('ok', 'error')
             nfault_kinds = {t[0] for t in targets}
+            # ---- the error limit: the run stops exactly when the number of I/O errors reaches it (-L), not before, not later
+            n_eio_rd = len([t for t in targets if t[0] == 'rd' and t[3] == EIO and t[1] is not None])
+            if nfault_kinds == {'rd'} and all(t[3] == EIO for t in targets):
+                lim = case.get('limit') if case.get('limit') is not None else 100
+                if n_eio_rd >= lim and not bailed:
+                    chk.violation('limit', 'sync -L %d with %d read EIO errors did not stop at the limit (io_cache %d): exit %d, summary %s' % (lim, n_eio_rd, case['cache'], r.rc, r.summary().get('exit')), rep)
+                if n_eio_rd < lim and bailed:
+                    chk.violation('limit', 'sync -L %d stopped after only %d read EIO errors (io_cache %d)' % (lim, n_eio_rd, case['cache']), rep)
+                if n_eio_rd >= lim and bailed:
+                    # the stripes after the one that reached the limit are left untouched
+                    hitpos = sorted(t[1] for t in targets)[lim - 1]
+                    late = [p for p in ref.enabled if p > hitpos and view.get(p, {}).get('allblk')]
+                    if late and case['cache'] == 1:
+                        chk.violation('limit', 'sync -L %d: stripes %s after the stripe that reached the limit were still processed' % (lim, late), rep)
             for (kind, pos, who, errno) in targets:
                 if pos is None:
                     continue
@@ -280,6 +296,8 @@ class Runner:
     def scrub_case(self, case):
         """case = dict(cache, target=('data', disk, sub, j) | ('par', level, j), errno)"""
         scn, chk = self.scn, self.chk
+        if len(chk.violations) > 8:
+            return
         a = scn.build()
         rep = dict(case); rep.update(scn.describe())
         try:
